@@ -97,6 +97,8 @@ RUNGS = {
     N("!meshGL.halfedgeTangent.empty() && meshGL.halfedgeTangent.size() != 4 * meshGL.triVerts.size()"): "RTangentLen",
     N("runIndex.size() != std::max(1_uz, meshGL.runOriginalID.size()) + 1 || runIndex.front() != 0 || runIndex.back() != runEnd || "
       "!std::is_sorted(runIndex.begin(), runIndex.end())"): "RRunIndexShape",
+    N("runIndex.size() != std::max(1_uz, meshGL.runOriginalID.size()) + 1 || runIndex.front() != 0 || runIndex.back() != runEnd || "
+      "std::adjacent_find(runIndex.begin(), runIndex.end(), std::greater_equal<I>()) != runIndex.end()"): "RRunIndexShapeStrict",
 }
 
 ERRORS = ["NoError", "NonFiniteVertex", "NotManifold", "VertexOutOfBounds", "PropertiesWrongLength",
